@@ -88,7 +88,7 @@ def _ensure_multiline_string_triple_quoted(value):
     s = str(value)
     # Escaping any backslash and double quote
     s = s.replace("\\", "\\\\").replace('"', '\\"')
-    if "\n" in s:
+    if "\n" in s or "\r" in s:
         return '"""%s"""' % s
     else:
         return '"%s"' % s
